@@ -6,8 +6,8 @@ From Coq.Strings Require Import Byte.
 Import ListNotations.
 From GA.Model Require Import Fasta.
 From GA.Proofs Require Import FastaProofs.
-From GA.Model Require Phylip.
-From GA.Proofs Require PhylipProofs.
+From GA.Model Require Phylip Nexus.
+From GA.Proofs Require PhylipProofs NexusProofs.
 
 (* for every wrap width and every representable alignment, parsing what the
    writer wrote gives the alignment back: same names, same order, same residues *)
@@ -31,6 +31,13 @@ Theorem C02_phylip_roundtrip :
   Phylip.read (length a) (Phylip.write wl wb ly a) = a.
 Proof. exact PhylipProofs.phylip_roundtrip. Qed.
 Print Assumptions C02_phylip_roundtrip.
+
+(* Nexus: reading back the matrix block of what the writer wrote (one row per line, the name up to the
+   first blank) gives the rows, for every alignment of non-empty names and rows without blanks *)
+Theorem C02_nexus_roundtrip :
+  forall protein a, Forall NexusProofs.good_nrow a -> Nexus.read (Nexus.write protein a) = a.
+Proof. exact NexusProofs.nexus_roundtrip. Qed.
+Print Assumptions C02_nexus_roundtrip.
 
 Definition C02_all_formats_statement : Prop :=
   forall (writef : list row -> list byte) (parsef : list byte -> res) (repr : list row -> bool) a,
